@@ -69,6 +69,10 @@ type PropT[C any] struct {
 	Sweep       func(tier string, emit func(*C)) // deterministic enumeration (optional)
 	SweepScopes func(tier string) []string       // what the sweep enumerates completely
 	ReplayRuns  int                              // replay repeats (for order / schedule dependent properties)
+	// Related returns cases that share all but one component with c (optional). After c was checked they are checked too,
+	// and then c is checked again: a result must not depend on which related calls were made before (a cache keyed by
+	// a subset of the arguments, a memo that is not invalidated, a reused scratch buffer).
+	Related func(*C) []*C
 }
 
 // prop is the untyped form used by the runner.
@@ -83,6 +87,7 @@ type prop struct {
 	sweep       func(string, func(any))
 	sweepScopes func(string) []string
 	replayRuns  int
+	related     func(any) []any
 }
 
 var registry = map[string]*prop{}
@@ -101,6 +106,16 @@ func register[C any](p PropT[C]) {
 	}
 	if p.SweepScopes != nil {
 		q.sweepScopes = p.SweepScopes
+	}
+	if p.Related != nil {
+		q.related = func(c any) []any {
+			rs := p.Related(c.(*C))
+			out := make([]any, len(rs))
+			for i, r := range rs {
+				out[i] = r
+			}
+			return out
+		}
 	}
 	if q.replayRuns == 0 {
 		q.replayRuns = 1
@@ -303,9 +318,33 @@ func libraryPanic(stack string) bool {
 
 type harnessError struct{ msg string }
 
-// runCheck executes the property's check on one case with panic classification and
-// known-finding exclusion. It returns the failures that are NOT explained by a known finding.
+// runCheck checks one case; if the property defines related cases it then checks those and the case once more
+// (history independence). Failures of the repeated check are reported with the kind prefix "after-related:".
 func runCheck(p *prop, s *stats, c any) (unexplained []Fail) {
+	unexplained = runCheckOnce(p, s, c)
+	if len(unexplained) > 0 || p.related == nil {
+		return unexplained
+	}
+	for _, r := range p.related(c) {
+		Count("related_cases_checked", 1)
+		if f := runCheckOnce(p, s, r); len(f) > 0 {
+			for i := range f {
+				f[i].Msg = "related case " + jsonStr(r) + ": " + f[i].Msg
+			}
+			return f
+		}
+	}
+	again := runCheckOnce(p, s, c)
+	for i := range again {
+		again[i].Kind = "after-related:" + again[i].Kind
+		again[i].Msg = "the case passed when checked first, but fails after calls with related arguments: " + again[i].Msg
+	}
+	return again
+}
+
+// runCheckOnce executes the property's check on one case with panic classification and
+// known-finding exclusion. It returns the failures that are NOT explained by a known finding.
+func runCheckOnce(p *prop, s *stats, c any) (unexplained []Fail) {
 	var fl Fails
 	func() {
 		defer func() {
